@@ -68,10 +68,11 @@ func c21Client(arg string) int {
 	}()
 	if err != nil {
 		say("CONNECTFAILED %v", err)
-		if a.Hostile {
-			say("DONE")
-			return 0
+		if !a.Hostile {
+			// the connect sequence was answered sanely: a failure here is load, not the subject
+			say("INCONCLUSIVE connect failed: %v", err)
 		}
+		say("DONE")
 		return 0
 	}
 	var sub *opcua.Subscription
